@@ -258,6 +258,7 @@ namespace kit
     std::function<void(uint64_t, Ctx &)> run;
     std::string bound;          // human-readable statement of the alphabet and bound
     int watchdog_s = 120;
+    std::function<std::string(uint64_t)> describe;   // optional: JSON text describing case i (used when a worker dies in it)
     bool fresh_process = false; // run every case in a freshly exec'd process (process-level statics start pristine)
   };
 
@@ -468,13 +469,27 @@ namespace kit
         tag = "/ubsan-" + clean + "@" + where;
       }
     else return "";
-    // first frame inside the library
-    size_t f = err.find("/stage/source/");
-    if (f != std::string::npos && tag.find('@') == std::string::npos)
+    // first stack frame inside the library: the function name (stable under edits that shift line numbers)
+    size_t f = 0;
+    while ((f = err.find("/stage/source/", f)) != std::string::npos)
       {
-        size_t e = f + 14;
-        while (e < err.size() && !isspace(static_cast<unsigned char>(err[e]))) ++e;
-        tag += "@" + err.substr(f + 14, e - f - 14);
+        size_t b = err.rfind(" in ", f);
+        size_t ls = err.rfind('\n', f);
+        if (!(b != std::string::npos && (ls == std::string::npos || b > ls))) { ++f; continue; }
+          {
+            std::string fn = err.substr(b + 4, f - b - 4);
+            // drop the argument list and trailing path fragment
+            const size_t par = fn.find('(');
+            if (par != std::string::npos) fn = fn.substr(0, par);
+            while (!fn.empty() && (fn.back() == ' ' || fn.back() == '.')) fn.pop_back();
+            const size_t sp = fn.rfind(' ');
+            if (sp != std::string::npos) fn = fn.substr(sp + 1);
+            if (fn.size() > 90) fn = fn.substr(0, 90);
+            const size_t at = tag.find('@');
+            if (at != std::string::npos) tag = tag.substr(0, at);
+            tag += "@" + fn;
+          }
+        break;
       }
     return tag;
   }
@@ -686,8 +701,11 @@ namespace kit
                 while (local >= suites[si].n) { local -= suites[si].n; ++si; }
                 const std::string tail = read_tail(g.rundir + "/shard" + std::to_string(id) + ".err", 6000);
                 how += crash_tag(tail);
-                viols.push_back({suites[si].name, local, "crash/" + suites[si].name + "/" + how,
-                                 JObj().str("how", how).str("stderr_tail", tail).done()});
+                JObj cd;
+                cd.str("how", how);
+                if (suites[si].describe) cd.raw("case", suites[si].describe(local));
+                cd.str("stderr_tail", tail);
+                viols.push_back({suites[si].name, local, "crash/" + suites[si].name + "/" + how, cd.done()});
                 sh->w[id].current = UINT64_MAX;
                 sh->w[id].cases_done = sh->w[id].cases_done + 1;
               }
@@ -801,7 +819,7 @@ namespace kit
         {
           std::ofstream o(rfile);
           o << JObj().str("property", spec.property).str("tier", g.tier).str("suite", v.suite).integer("case_index", static_cast<long long>(v.idx))
-            .str("signature", v.sig).integer("occurrences", static_cast<long long>(e.second.size())).raw("detail", v.detail.empty() ? "{}" : v.detail)
+            .str("signature", v.sig).integer("occurrences", static_cast<long long>(e.second.size())).raw("all_case_indices_first_40", [&]() { std::string l = "["; for (size_t q = 0; q < e.second.size() && q < 40; ++q) l += (q ? "," : "") + std::to_string(e.second[q]->idx); return l + "]"; }()).raw("detail", v.detail.empty() ? "{}" : v.detail)
             .str("replay_cmd", "/verif/check " + spec.property + " --replay " + rfile).done() << "\n";
         }
         bool is_known = false;
